@@ -1,3 +1,6 @@
+typedef struct { BodyMode mode; uint64_t contentLength; } Framing;      /* struct Framing (http_client.hpp): mode{CloseDelimited}, contentLength{0} */
+#define Framing_DEFAULT ((Framing){ BodyMode_CloseDelimited, 0 })
+#define FRAMING_EXC ((Framing){ BodyMode_CloseDelimited, 0 })             /* value "returned" when an exception is raised (never used by the caller) */
 /* spec macros + loop contracts for unit http_client_headers (C15). Written from RFC 9112 6.3 / 6.1 / 5 and RFC 9110 5.6.1 as byte values
  * (44 ',', 32 SP, 9 HTAB, 58 ':', 13 CR, 10 LF). Style: range guards in front, otherwise bitwise connectives over clamped reads. */
 
@@ -79,7 +82,7 @@
   __CPROVER_assigns(pos, lastToken, HL, HT) \
   __CPROVER_loop_invariant(pos <= v.n) \
   __CPROVER_loop_invariant(HM_CONTENT(SEGSTART(v, pos <= v.n ? pos : 0))) \
-  __CPROVER_loop_invariant((HL.has_last != 0) ? (TE_PTR_EQ & (lastToken.n == HL.lt_n) & (HL.lt_n >= 1) & (HL.lt_a <= v.n) & (HL.lt_n <= v.n - HL.lt_a) & (HL.lt_end < pos)) : (lastToken.n == 0)) \
+  __CPROVER_loop_invariant((HL.has_last != 0) ? ((HL.lt_a <= v.n) && (HL.lt_n <= v.n - HL.lt_a) && (TE_PTR_EQ & (lastToken.n == HL.lt_n) & (HL.lt_n >= 1) & (HL.lt_end < pos))) : (lastToken.n == 0)) \
   TE_INV_TOKEN TE_INV_TAIL \
   __CPROVER_decreases(v.n - pos))
 
